@@ -30,6 +30,14 @@ ASSUMPTIONS = ["handlers are atomic (no suspension inside Raft handlers — chec
 NETW = "happysimulator/components/network/network.py"
 
 
+def rule_network_dependency(ctx: Ctx) -> None:
+    """C11-9 (dependency): the liveness clause (commands reach every node once the network is whole again) relies on the network layer
+    really unblocking a healed pair: partition handles own what they block, are registered, and a heal retires exactly that handle."""
+    from .c06 import partition_handle_rules
+
+    partition_handle_rules(ctx, "C11-9")
+
+
 def rule_round2(ctx: Ctx) -> None:
     prog = ctx.prog
     # Log.truncate_from acts for every 1 <= index <= len and only then
@@ -302,6 +310,7 @@ def run(ctx: Ctx) -> None:
     protocol_schema(ctx, "C11-7", node)
 
     ctx.guarded(rule_round2)
+    ctx.guarded(rule_network_dependency)
     for r, k in (("C11-1", 4), ("C11-2", 2), ("C11-3", 6), ("C11-4", 3), ("C11-5", 5), ("C11-6", 3), ("C11-7", 6), ("C11-8", 2), ("C11-9", 1)):
         ctx.floor(r, k)
 
